@@ -20,7 +20,8 @@ Clauses (finding keys)
   C11.missing_registration_must_raise    loading returned a treespec although a recorded custom type is not registered
                                          in the recorded namespace
   C11.load_without_custom_nodes          a treespec without custom nodes failed to load in a process without registrations
-  C11.unexpected_exception               dumps / loads / copy raised in the same process; child process crashed
+  C11.protocol_supported                 pickle.dumps(s, protocol) raised (every protocol 0..HIGHEST is in the quantifier)
+  C11.unexpected_exception               loads / copy raised in the same process; child process crashed
 """
 from __future__ import annotations
 
@@ -40,6 +41,7 @@ from ocv.bounded import scope as S
 from ocv.result import BoundedReport
 
 PROTOCOLS = list(range(0, pickle.HIGHEST_PROTOCOL + 1))
+UNSUPPORTED = {}           # protocol -> [number of treespecs whose dumps raised]
 
 
 def compare(a, b):
@@ -132,9 +134,21 @@ def check_same_process(d, o, ins, bag):
         return None
     for proto in PROTOCOLS:
         bag.ev()
-        st, r = U.guard(lambda: pickle.loads(pickle.dumps(s, proto)))
+        st, data = U.guard(pickle.dumps, s, proto)
         if st == 'exc':
-            bag.add('C11.unexpected_exception', f'{lab}: pickle round trip with protocol {proto} raised {U.exc_name(r)}',
+            # one finding per protocol (deterministic text); further occurrences are only counted
+            seen = UNSUPPORTED.setdefault(proto, [0])
+            seen[0] += 1
+            if seen[0] == 1:
+                bag.add('C11.protocol_supported',
+                        f'pickle protocol {proto} not supported: pickle.dumps(spec, {proto}) raised {type(data).__name__}',
+                        f'spec = optree.tree_structure((1, 2))\ntry:\n    pickle.loads(pickle.dumps(spec, {proto}))\nexcept Exception as e:\n'
+                        '    print(type(e).__name__, e); sys.exit(1)\nsys.exit(0)\n',
+                        data={'protocol': proto, 'exception': type(data).__name__})
+            continue
+        st, r = U.guard(pickle.loads, data)
+        if st == 'exc':
+            bag.add('C11.unexpected_exception', f'{lab}: pickle.loads of the protocol {proto} pickle raised {U.exc_name(r)}',
                     head + f'pickle.loads(pickle.dumps(s, {proto}))\nsys.exit(0)\n')
             continue
         for b in compare(s, r):
@@ -212,6 +226,7 @@ def child_main(mode, infile, outfile):
     with open(infile, 'rb') as f:
         items = pickle.load(f)
     out = []
+    raised = loaded_n = 0
     for idx, (d, o_key, ins, proto, custom, data) in enumerate(items):
         o = {'none_is_leaf': o_key[0], 'namespace': o_key[1], 'is_leaf': None}
         try:
@@ -219,6 +234,8 @@ def child_main(mode, infile, outfile):
             loaded = True
         except Exception as e:   # noqa: BLE001 - classified below
             r, loaded = e, False
+        raised += not loaded
+        loaded_n += loaded
         if mode in ('same', 'reregistered'):
             if not loaded:
                 out.append((idx, 'exception', f'loads raised {type(r).__name__}: {r}'))
@@ -243,7 +260,7 @@ def child_main(mode, infile, outfile):
                 except Exception as e:   # noqa: BLE001
                     out.append((idx, 'exception', f'{type(e).__name__}: {e}'))
     with open(outfile, 'w') as f:
-        json.dump({'n': len(items), 'failures': out}, f)
+        json.dump({'n': len(items), 'failures': out, 'raised': raised, 'loaded': loaded_n}, f)
     return 0
 
 
@@ -281,6 +298,7 @@ def run_children(items, bag, modes):
             with open(outfile) as f:
                 res = json.load(f)
             bag.ev(res['n'])
+            bag.notes.append(f'history {mode}: {res["loaded"]} pickles loaded, {res["raised"]} raised')
             for idx, clause, detail in res['failures']:
                 d, o, ins, proto, custom, data = items[idx]
                 if clause == 'must_raise':
@@ -307,6 +325,7 @@ def replay_children(mode, n):   # used only by the crash replay script
 
 def run(tier: str, seed: int) -> BoundedReport:
     U.ensure_registered()
+    UNSUPPORTED.clear()
     quick = tier == 'quick'
     rng = random.Random(seed)
     bag = U.Bag('c11_pickle')
@@ -341,14 +360,18 @@ def run(tier: str, seed: int) -> BoundedReport:
             continue
         if k in (3, len(cases) // 2, len(cases) - 5):
             bag.sample(f'{label(d, o, ins)} -> {s!r}')
-        custom = has_custom(s)
-        ncustom += custom
-        protos = PROTOCOLS if (U.n_nodes(d) <= 2 and not quick) else [k % len(PROTOCOLS)]
-        for proto in protos:
-            st, data = U.guard(pickle.dumps, s, proto)
-            if st == 'ok':
-                items.append((d, o, ins, proto, custom, data))
+        try:
+            custom = has_custom(s)
+            ncustom += custom
+            working = [p for p in PROTOCOLS if U.guard(pickle.dumps, s, p)[0] == 'ok']
+            protos = working if (U.n_nodes(d) <= 2 and not quick) else working[k % max(len(working), 1):][:1]
+            for proto in protos:
+                items.append((d, o, ins, proto, custom, pickle.dumps(s, proto)))
+        except Exception as e:   # noqa: BLE001
+            bag.add('C11.unexpected_exception', f'{label(d, o, ins)}: {U.exc_name(e)}', flatten_src(d, o, ins) + 's.__getstate__(); pickle.dumps(s)\nsys.exit(0)\n')
     run_children(items, bag, CHILD_MODES)
+    for proto, cnt in sorted(UNSUPPORTED.items()):
+        bag.notes.append(f'protocol {proto}: dumps raised for {cnt[0]} of {len(cases)} treespecs')
     bag.sample(f'{len(items)} pickles loaded in 4 spawned interpreters: same registrations / unregister + register again / nothing registered / registered only in another namespace')
     return bag.report(
         rule=f'distinct = (tree description, options, dict-order mode); {ncustom} of {len(cases)} treespecs contain custom nodes '
